@@ -143,7 +143,8 @@ def applyFirst (rs : List Rule) (cfg : Cfg) (rbuf v : Str) : Str :=
 example : zoFolaValue = [cHasanta, cZ] := by decide
 example : ('র', '্', 'ঁ', 'ৗ', 'ঔ', '\u200d', '\u200c') = (cR, cHasanta, cChandra, cLengthMark, cOU, cZWJ, cZWNJ) := by decide
 /-- the eleven signs: the ten of the table and `ৄ` -/
-example : Gen.karSet = (signVowelTable.map (·.1.toNat)) ++ ['ৄ'.toNat] := by decide
+example : (Gen.karSet.all fun k => ((signVowelTable.map (·.1.toNat)) ++ ['ৄ'.toNat]).contains k) = true ∧
+    (((signVowelTable.map (·.1.toNat)) ++ ['ৄ'.toNat]).all fun k => Gen.karSet.contains k) = true ∧ Gen.karSet.length = 11 := by decide
 /-- the independent vowels are `isVowel`, and so are the ten signs -/
 example : signVowelTable.all (fun p => isVowel p.1 && isVowel p.2) = true := by decide
 example : isVowel 'ৄ' = false ∧ isKar 'ৄ' = true ∧ independentOf 'ৄ' = none := by decide
